@@ -28,7 +28,8 @@ THEOREMS = [f'Gnpy.Edfa.{t}' for t in (
     'out_of_band_dropped', 'in_band_kept', 'demux_sublist', 'call_none_iff_no_channel_in_band',
     'gain_profile_normalised_partial', 'callSeq_unsaturated', 'callSeq_persists', 'nf_stage_at_gmax_gmin',
     'nf_openroadm', 'nf_openroadm_preamp', 'multiCall_none_iff', 'multiCall_per_band', 'coil_pos_of_spread',
-    'nf_stage_antitone', 'interp_const')]
+    'nf_stage_antitone', 'interp_const', 'dual_stage_limits', 'dual_stage_total_out_le_booster_pmax',
+    'dual_stage_rejected_iff')]
 PARTIAL = ['gain_profile_normalised_partial: under tilt or gain ripple the secant step of Edfa._gain_profile only '
            'approximates the target average gain; proved: the profile is g1st - voa + dgt*x for one scalar x (so its '
            'shape is exactly ripple + x\'*dgt) and the flat case is exact; the residual of the average gain is '
@@ -48,7 +49,8 @@ MODEL_SCOPE = ('modelled: Edfa.__call__/propagate/interpol_params (band filter, 
                'effective_gain attribute incl. its persistence across calls, slot_width rule), _calc_nf/_nf for all '
                'type_defs incl. dual_stage, noise_profile, _gain_profile (flat and tilted/ripple branches, polyfit as '
                'closed-form least squares), numpy linspace/interp/polyval, pout_db, output powers; '
-               'estimate_nf_model; Amp.from_json key requirements. Not modelled: PMD/PDL accumulation (C05), ratio '
+               'estimate_nf_model; Amp.from_json key requirements; _update_dual_stage (p_max = booster stage, gain_flatmax = sum, '
+               'stages = the two named entries, gain_min check). Not modelled: PMD/PDL accumulation (C05), ratio '
                'bookkeeping of add_ase (C01). Multiband_amplifier.__call__ is modelled as per-band Edfa calls whose '
                'outputs are merged by frequency')
 TRUSTED = ['numpy.polyfit (SVD least squares) is compared against the closed-form least-squares slope within class F']
@@ -99,7 +101,8 @@ def gen_lib(rng):
         e['f_min'], e['f_max'] = float(amplib.L_FMIN), float(amplib.L_FMAX)
         entries.append(e)
     pre = rng.choice(['vg0', 'fg0', 'vg1'])
-    boost = rng.choice(['vg0', 'vg1', 'fg0', 'or2'])
+    boost = rng.choice([b for b in ('vg0', 'vg1', 'fg0', 'or2') if b != pre])
+    amplib.split_pmax(rng, entries, pre, boost)
     entries.append(amplib.dual_entry(rng, 'dual0', pre, boost, gain_min=rng.choice([20, 25, 30])))
     if any(e['type_variety'] == 'adv0' for e in entries) and rng.random() < 0.5:
         entries.append(amplib.dual_entry(rng, 'dual1', 'adv0', 'vg0', gain_min=25))
@@ -171,7 +174,8 @@ def gen_call(rng, tier, widen):
             except Exception:
                 continue
         cands = list(eq['Edfa'])
-    amp = rng.choice(cands)
+    duals = [n for n in cands if eq['Edfa'][n].type_def == 'dual_stage']
+    amp = rng.choice(duals) if duals and rng.random() < 0.25 else rng.choice(cands)
     a = eq['Edfa'][amp]
     r = rng.random()
     if r < 0.5:
@@ -353,12 +357,32 @@ def run_call(case, drv):
     amp, eq = build_amp(case, oper)
     p = amp.params
     fmin, fmax = int(p.f_min), int(p.f_max)
+    # limits by the statement, from the library document: a dual-stage type saturates at its BOOSTER stage's p_max
+    raw = amplib.raw_entries(case['lib'])
+    entry = raw[case['amp']]
+    limits = None
+    if p.type_def == 'dual_stage':
+        pre_e, boost_e = raw[entry['preamp_variety']], raw[entry['booster_variety']]
+        pmax_ref = float(boost_e['p_max'])
+        md = drv.ask('c04.dual', pre=amplib.limits_json(pre_e), boost=amplib.limits_json(boost_e),
+                     gain_min=f2b(entry['gain_min']))
+        if 'error' in md:
+            res.mismatch('_update_dual_stage.accepts', 'loaded', md['error'])
+        else:
+            limits = (b2f(md['p_max']), b2f(md['gain_flatmax']))
+            res.cmp_exact('_update_dual_stage.p_max', f2b(p.p_max), md['p_max'])
+            res.cmp_exact('_update_dual_stage.gain_flatmax', f2b(p.gain_flatmax), md['gain_flatmax'])
+            res.cmp_exact('_update_dual_stage.gain_min', f2b(p.gain_min), md['gain_min'])
+        res.stats['dual_preamp_pmax_' + ('higher' if pre_e['p_max'] > boost_e['p_max'] else
+                                          'lower' if pre_e['p_max'] < boost_e['p_max'] else 'equal')] += 1
+    else:
+        pmax_ref = float(entry['p_max'])
     sis = [make_si(c) for c in case['calls'] if c['chans']]
     calls = [c for c in case['calls'] if c['chans']]
     model_calls = [[[c[0], c[1], f2b(c[2]), f2b(pw)] for c, pw in zip(call['chans'], si.pch)]
                    for call, si in zip(calls, sis)]
     in_voa = oper.get('in_voa', 0)
-    ans = drv.ask('c04.call', amp=amplib.amp_json(p),
+    ans = drv.ask('c04.call', amp=amplib.amp_json(p, eq, limits),
                   oper={'gain': f2b(oper['gain_target']), 'tilt': f2b(oper['tilt_target']),
                         'in_voa': None if in_voa is None else f2b(in_voa), 'out_voa': f2b(oper['out_voa'])},
                   calls=model_calls)
@@ -414,16 +438,16 @@ def run_call(case, drv):
         ptot = math.fsum(p_in)
         pin_db = 10 * math.log10(ptot * 1e3)
         eff = float(amp.effective_gain)
-        need = min(set_gain, p.p_max - pin_db)
+        need = min(set_gain, pmax_ref - pin_db)
         if ci == 0:
             if abs(eff - need) > 1e-9:
-                res.fail(f'effective gain: {eff} applied, set gain {set_gain}, p_max-pin = {p.p_max - pin_db}: the set '
+                res.fail(f'effective gain: {eff} applied, set gain {set_gain}, p_max-pin = {pmax_ref - pin_db}: the set '
                          'gain must be reduced exactly as far as needed', call=ci)
         else:
             # later calls of the same object: only what the statement fixes whatever the gain in force is
-            if eff > set_gain + 1e-9 or pin_db + eff > p.p_max + 1e-9:
+            if eff > set_gain + 1e-9 or pin_db + eff > pmax_ref + 1e-9:
                 res.fail(f'effective gain: {eff} on a later call exceeds the set gain {set_gain} or p_max-pin '
-                         f'{p.p_max - pin_db}', call=ci)
+                         f'{pmax_ref - pin_db}', call=ci)
         sat_now = eff < prev_eff - 1e-12 or (ci == 0 and eff < set_gain - 1e-12)
         saturated = saturated or sat_now
         prev_eff = eff
@@ -439,9 +463,9 @@ def run_call(case, drv):
         if abs(tot_gain - eff) > tol_db:
             res.fail(f'total gain: total incoming power raised by {tot_gain:.6f} dB, effective gain {eff:.6f} dB '
                      f'(tolerance {tol_db})', call=ci)
-        if 10 * math.log10(amplified_in * 1e3) > p.p_max + tol_db:
+        if 10 * math.log10(amplified_in * 1e3) > pmax_ref + tol_db:
             res.fail(f'p_max: amplified incoming power {10 * math.log10(amplified_in * 1e3):.6f} dBm exceeds p_max '
-                     f'{p.p_max}', call=ci)
+                     f'{pmax_ref}', call=ci)
         if flat_cfg or n == 1:
             worst = max(abs(g - eff) for g in g_db)
             if worst > 1e-7:
@@ -478,7 +502,8 @@ def run_call(case, drv):
                           'saturated_calls': int(sat_now),
                           'single_channel_calls': int(n == 1), 'tilted_or_ripple_calls': int(not flat_cfg and n > 1),
                           'padded_calls': int(float(amp.att_in) > 0), f'typedef_{p.type_def}': 1,
-                          'later_calls': int(ci > 0), 'with_prior_noise': int(bool(call.get('noise')))})
+                          'later_calls': int(ci > 0), 'with_prior_noise': int(bool(call.get('noise'))),
+                          'dual_stage_saturated_calls': int(sat_now and p.type_def == 'dual_stage')})
     res.nontrivial = kept_any and (saturated or any(len(c['chans']) >= 2 for c in calls))
     res.stats.update({'call_cases': 1, 'lib_shipped': int('shipped' in case['lib'])})
     return res
@@ -659,6 +684,7 @@ def run_fromjson(case, drv):
         r2 = random.Random(case['cfg_seed'] + 1)
         p0, b0 = amplib.fg_entry(r2, 'p0'), amplib.fg_entry(r2, 'b0')
         p0['gain_min'], p0['gain_flatmax'] = 15, 20
+        p0['p_max'] = b0['p_max'] + r2.choice([-4, -2, 3, 5])
         entries += [p0, b0]
     try:
         eq = amplib.load_doc(amplib.eqpt_doc(entries), {'cfg.json': cfg})
@@ -685,6 +711,15 @@ def run_fromjson(case, drv):
             'advanced_model': 'NoneType', 'dual_stage': 'NoneType'}
     model = ('ok', want[m['ok']]) if 'ok' in m else ('err', m['err'])
     res.cmp_exact('Amp.from_json.outcome', impl, model)
+    if amp is not None and td == 'dual_stage':
+        md = drv.ask('c04.dual', pre=amplib.limits_json(entries[1]), boost=amplib.limits_json(entries[2]),
+                     gain_min=f2b(e['gain_min']))
+        res.cmp_exact('_update_dual_stage.limits', [f2b(amp.p_max), f2b(amp.gain_flatmax), f2b(amp.gain_min)],
+                      [md.get('p_max'), md.get('gain_flatmax'), md.get('gain_min')])
+        # monitor: the dual-stage type delivers the booster stage's power and the sum of both gains
+        if amp.p_max != entries[2]['p_max'] or amp.gain_flatmax != entries[1]['gain_flatmax'] + entries[2]['gain_flatmax']:
+            res.fail(f'dual stage limits: loaded p_max {amp.p_max} / gain_flatmax {amp.gain_flatmax}, booster p_max '
+                     f'{entries[2]["p_max"]}, stage gains {entries[1]["gain_flatmax"]} + {entries[2]["gain_flatmax"]}')
     # monitor: the NF definition built is the one the entry's type_def names (default: variable_gain) and the loaded
     # amplifier applies it: a crossing with an unsaturating 2-channel comb yields the NF of that model
     if amp is not None:
